@@ -57,6 +57,12 @@ CONFIGS = {
               "tracing-subscriber/json tracing-subscriber/env-filter tracing-subscriber/registry tracing-subscriber/parking_lot"],
         rustflags="",
         crates=["tracing_subscriber"]),
+    # the other in-workspace consumers of the subscriber API (siblings of fmt for the cross-check rules)
+    "consumers": dict(
+        kind="repo",
+        args=["-p", "tracing-journald", "-p", "tracing-flame"],
+        rustflags="",
+        crates=["tracing_journald", "tracing_flame"]),
     # fixture configs may be suffixed ":<seed>:<extra>" to add <extra> seeded random macro invocations
     "fx": dict(kind="fixture", args=["-p", "fx_macros"], rustflags="", crates=["fx_macros"]),
     "fx_log": dict(kind="fixture", args=["-p", "fx_macros_log"], rustflags="", crates=["fx_macros_log"]),
